@@ -2,7 +2,9 @@
    (1) Rotation: the expected image of an area under a change of origin is computed with the model
        of offset_location (Common/Loc.v; C04_offset_simple_ring proves it rotates exactly the bases);
        the correspondence run compares it with what the real pipeline reports on the rotated record.
-   (2) Rule order: an abstract model of the per-cutoff cache of apply_cluster_rules. *)
+   (2) Rule order: an abstract model of the per-cutoff cache of apply_cluster_rules, and a
+       transcription of remove_redundant_protoclusters (the only function of find_protoclusters
+       that reads the clusters of another rule). *)
 From ASV Require Export Base Loc.
 
 Definition rotate_loc (N k : Z) (l : loc) : res loc := offset_location l k (Some N).
@@ -30,10 +32,53 @@ Fixpoint eval_rules (cache : list (Z * I)) (rules : list R) : list O :=
   end.
 End Cache.
 
+(* ---------- remove_redundant_protoclusters: the only sanctioned cross-rule effect ----------
+   A protocluster is carried as: rule (numbered), core location, and the positions (in the sorted
+   CDS list of the record) of the first and the last CDS inside the core.  [sup] is the parsed
+   SUPERIORS table (rule -> names of its superiors, as closed by the parser). *)
+Record pc := mkPc { pc_rule : Z; pc_core : loc; pc_first : Z; pc_last : Z }.
+
+Fixpoint superiors_of (sup : list (Z * list Z)) (r : Z) : list Z :=
+  match sup with [] => [] | (k, v) :: rest => if r =? k then v else superiors_of rest r end.
+
+(* for other_cluster in clusters_by_rule.get(superior, []): ... (flag = is_redundant so far;
+   the containment test sets the flag and continues, an intersection of the CDS ranges breaks) *)
+Fixpoint redundant_inner (c : pc) (others : list pc) (flag : bool) : bool :=
+  match others with
+  | [] => flag
+  | o :: rest =>
+    if contains (pc_core o) (pc_core c) then redundant_inner c rest true
+    else if pc_last o <? pc_first c then redundant_inner c rest flag
+    else if pc_last c <? pc_first o then redundant_inner c rest flag
+    else true
+  end.
+
+(* for superior in rules_by_name[rule_name].superiors: ...; if is_redundant: break *)
+Fixpoint redundant_outer (c : pc) (sups : list Z) (by_rule : Z -> list pc) : bool :=
+  match sups with
+  | [] => false
+  | s :: rest => if redundant_inner c (by_rule s) false then true else redundant_outer c rest by_rule
+  end.
+
+Definition clusters_by_rule (cs : list pc) (r : Z) : list pc := filter (fun o => pc_rule o =? r) cs.
+
+Definition remove_redundant (sup : list (Z * list Z)) (cs : list pc) : list pc :=
+  filter (fun c => negb (redundant_outer c (superiors_of sup (pc_rule c)) (clusters_by_rule cs))) cs.
+
+Definition dPc : dec pc := fun l =>
+  match dPair (dPair dZ dLoc) (dPair dZ dZ) l with
+  | Some ((r, c, (f, la)), rest) => Some (mkPc r c f la, rest)
+  | None => None
+  end.
+Definition ePc (c : pc) : list Z := pc_rule c :: eLoc (pc_core c) ++ [pc_first c; pc_last c].
+
 Definition run_C07 (fn : Z) (l : list Z) : list Z :=
   match fn with
   | 1 => match dPair (dPair dZ dZ) (dList dLoc) l with
          | Some ((N, k, locs), []) => eList (fun a => eRes eLoc (rotate_loc N k a)) locs
+         | _ => bad_input end
+  | 2 => match dPair (dList (dPair dZ (dList dZ))) (dList dPc) l with
+         | Some ((sup, cs), []) => eList ePc (remove_redundant sup cs)
          | _ => bad_input end
   | _ => bad_input
   end.
